@@ -2,7 +2,10 @@
 
 from __future__ import annotations
 
+import ast
 from fractions import Fraction
+
+from ..index import ClassInfo
 
 from ..homog import ANY, degree
 from ..nf import NF, Atom, Undecided, app, atoms_of, lift, nf_equal, single_atom, subst, sym
@@ -95,7 +98,10 @@ def scale_linear(ctx, key, loc, nf, scale_atom):
 def check_detector(ctx, pkg, name, scale_name, attr, spec):
     rule = "C15.a NF-FORMULA"
     cls = ctx.P.public_class(pkg, name)
-    ex, paths, st = fit_scenario(ctx, cls)
+    # every scorer-valued hyper-parameter is an arbitrary user scorer of the same kind (its number of parameters per
+    # variable, its min_size are un-interpreted quantities): the documented formulas do not depend on them
+    overrides = _abstract_scorer_overrides(ctx, cls)
+    ex, paths, st = fit_scenario(ctx, cls, overrides=overrides)
     loc = ctx.P.lookup_method(cls, "_fit").loc()
     good = ok_paths(paths)
     if not good:
@@ -117,6 +123,40 @@ def check_detector(ctx, pkg, name, scale_name, attr, spec):
             what = f"{scale_name} * {name}.{spec[1]}(n, p, <own hyper-parameters>)"
         ctx.check(nf_equal(v.nf, want_nf), rule, f"{name}|{attr}", loc, f"{attr} == {what}", found=repr(v.nf), expected=repr(want_nf))
         scale_linear(ctx, f"{name}|{attr}", loc, v.nf, Atom("sym", scale_name))
+
+
+_SCORER_BASES = [
+    ("skchange.costs.base.BaseCost", 2),
+    ("skchange.change_scores.base.BaseChangeScore", 3),
+    ("skchange.anomaly_scores.base.BaseSaving", 2),
+    ("skchange.anomaly_scores.base.BaseLocalAnomalyScore", 4),
+]
+
+
+def _abstract_scorer_overrides(ctx, cls):
+    from .common import abstract_scorer, init_params
+
+    init = ctx.P.lookup_method(cls, "__init__")
+    out = {}
+    by_name = {"cost": "skchange.costs.base.BaseCost", "change_score": "skchange.change_scores.base.BaseChangeScore", "anomaly_score": "skchange.anomaly_scores.base.BaseLocalAnomalyScore", "collective_saving": "skchange.anomaly_scores.base.BaseSaving", "point_saving": "skchange.anomaly_scores.base.BaseSaving"}
+    for prm, d in init_params(init):
+        if isinstance(d, ast.Constant) and d.value is None and prm in by_name:
+            # `cost=None` (a default substituted in __init__): the user's object is an arbitrary one of that role's base class
+            base = by_name[prm]
+            width = dict(_SCORER_BASES)[base]
+            out[prm] = (lambda ex, base=base, width=width, prm=prm: abstract_scorer(ex, ctx.P, base, f"user_{prm}", width=width, param="none" if "Cost" in base else "fixed"))
+            continue
+        if not isinstance(d, ast.Call):
+            continue
+        r = ctx.P.resolve_expr(init.module, d.func)
+        if not isinstance(r, ClassInfo):
+            continue
+        for base, width in _SCORER_BASES:
+            b = ctx.P.classes.get(base)
+            if b is not None and ctx.P.is_subclass(r, b):
+                out[prm] = (lambda ex, base=base, width=width, prm=prm: abstract_scorer(ex, ctx.P, base, f"user_{prm}", width=width, param="none" if "Cost" in base else "fixed"))
+                break
+    return out or None
 
 
 def own_default(ctx, cls, fname, obj):
